@@ -90,7 +90,8 @@ type parseObserver struct {
 	used   rjson.Buffer // reused across every input of this generator run
 	failed rjson.Buffer // re-dirtied by a failing nested document before each use
 	orig   []byte
-	noStd  bool // skip the (slow) stdlib observations for very long inputs
+	noStd  bool   // skip the (slow) stdlib observations for very long inputs
+	arena  []byte // one input array, refilled for the "same array, different document" observations
 }
 
 var dirtyDoc = []byte(`[[[[{"a":[{"b":[1,`)
@@ -111,7 +112,7 @@ func newParseObserver() *parseObserver {
 	return po
 }
 
-const parseObsLen = 24
+const parseObsLen = 30
 
 // observe runs the parse family on data and returns the observation vector:
 //
@@ -120,6 +121,8 @@ const parseObsLen = 24
 //	11,12 SkipValueFast(nil) ok,p  13,14 SkipValueFast(used) ok,p
 //	15 input unchanged  16 panics  17 stdlib observed (0 when skipped)
 //	18 Valid(grown)  19,20 SkipValue(grown) ok,p  21,22 SkipValueFast(grown) ok,p  23 panics in these
+//	24 Valid  25,26 SkipValue  27,28 SkipValueFast on the caller's array refilled with data after a same-length
+//	document went through the same Buffer  29 panics in these
 func (po *parseObserver) observe(data []byte, o []int) []int {
 	o = o[:0]
 	po.orig = append(po.orig[:0], data...)
@@ -173,6 +176,45 @@ func (po *parseObserver) observe(data []byte, o []int) []int {
 	o = append(o, b2i(vg))
 	pair(func() (int, error) { return rjson.SkipValue(data, &po.grown) })
 	pair(func() (int, error) { return rjson.SkipValueFast(data, &po.grown) })
+	o = append(o, panics-before)
+	// the caller's input array refilled: a well-formed document of the same length (a string token) goes through a
+	// Buffer first, then data is copied into the very same array and goes through the same Buffer - anything a
+	// Buffer remembers about "the last document" must not be keyed on where the bytes live
+	before = panics
+	n := len(data)
+	if cap(po.arena) < n {
+		po.arena = make([]byte, n, 2*n+16)
+	}
+	ar := po.arena[:n]
+	refill := func(b *rjson.Buffer, first func([]byte, *rjson.Buffer)) {
+		for i := range ar {
+			ar[i] = 'a'
+		}
+		if n >= 2 {
+			ar[0], ar[n-1] = '"', '"'
+		} else if n == 1 {
+			ar[0] = '7'
+		}
+		first(ar, b)
+		copy(ar, data)
+	}
+	vr := false
+	guard(func() {
+		b := &rjson.Buffer{}
+		refill(b, func(d []byte, b *rjson.Buffer) { rjson.Valid(d, b) })
+		vr = rjson.Valid(ar, b)
+	})
+	o = append(o, b2i(vr))
+	pair(func() (int, error) {
+		b := &rjson.Buffer{}
+		refill(b, func(d []byte, b *rjson.Buffer) { rjson.SkipValue(d, b) })
+		return rjson.SkipValue(ar, b)
+	})
+	pair(func() (int, error) {
+		b := &rjson.Buffer{}
+		refill(b, func(d []byte, b *rjson.Buffer) { rjson.SkipValueFast(d, b) })
+		return rjson.SkipValueFast(ar, b)
+	})
 	o = append(o, panics-before)
 	return o
 }
